@@ -19,7 +19,7 @@ PROPERTY = 'C06'
 LEVEL = 'model_checking'
 
 ENCS = ['latin_1', 'cp500', 'cp037', 'ascii']
-SHAPES = ['minimal', 'typed', 'pds_small', 'pds_multi', 'icc_binary', 'de43', 'near_max', 'pan', 'blanks']
+SHAPES = ['minimal', 'typed', 'pds_small', 'pds_multi', 'icc_binary', 'de43', 'near_max', 'pan', 'blanks', 'pds_mixed']
 
 
 def shape_message(shape, i=0):
@@ -39,8 +39,13 @@ def shape_message(shape, i=0):
                 (b'\x5f\x2a', b'\x00\x00')]
         return 'PKG', {'MTI': '1240', 'DE3': '123456', 'DE55': iso_ref.icc_build(tlvs), 'DE63': 'L' * 16}
     if shape == 'de43':
-        return 'PKG', {'MTI': '1240', 'DE42': 'MERCHANT0000001',
-                       'DE43': 'BIG BOBS\\80 KERNDALE ST\\DANERLEY\\3103      VICAUS', 'DE49': '036'}
+        # the merchant text rotates with the record index: plain, name / address / suburb padded with blanks before
+        # the separators (as fixed-layout sources produce it), one-character parts, a text the pattern does not match
+        texts = ['BIG BOBS\\80 KERNDALE ST\\DANERLEY\\3103      VICAUS',
+                 'SHOP   \\1 HIGH ST   \\TOWN   \\AB1 2CD   ENGGBR',
+                 'A\\B\\C\\1234567890XYZAUS', 'NAME ONLY NO SEPARATORS',
+                 'CAFE  BAR    \\ 12  MAIN   RD  \\  OLD  TOWN  \\  90210    CA USA']
+        return 'PKG', {'MTI': '1240', 'DE42': 'MERCHANT0000001', 'DE43': texts[i % len(texts)], 'DE49': '036'}
     if shape == 'near_max':
         m = {'MTI': '1240', 'DE2': '5' * 19, 'DE54': 'A' * 999, 'DE63': 'B' * 999, 'DE72': 'C' * 999, 'DE111': 'D' * 999,
              'DE127': 'E' * 999, 'DE55': iso_ref.icc_build(isogen.icc_of_length(900, 3))}
@@ -50,6 +55,10 @@ def shape_message(shape, i=0):
         return 'PKG', {'MTI': '1240', 'DE3': '      ', 'DE72': ((' ' * 40 + 'x') * 25)[:990 + i % 9],
                        'DE54': (('@' * 30 + 'y') * 30)[:800 + (i * 7) % 100], 'DE127': ' ' * (100 + i % 50),
                        'PDS0158': ' ' * 12}
+    if shape == 'pds_mixed':
+        # PDSxxxx keys (they go into the first carrier) next to later carriers supplied ready-made by the caller
+        return 'PKG', {'MTI': '1240', 'DE2': '5444330000001111', 'PDS0023': 'CT6', 'PDS0158': 'ABCDEFGHIJKL',
+                       'DE62': '0001002AB0002000', 'DE123': '0300003xyz', 'DE49': '036'}
     if shape == 'pan':
         return 'CUSTOM', {'MTI': '1240', 'DE2': '5444331234561111', 'DE32': '123456789012', 'DE7': 1234,
                           'DE49': '036'}
